@@ -62,7 +62,7 @@ CURATED = {
     "direct_model": { "DataMixin._set_data": ("C10",), "DirectModel.simulate_data": ("C10",),
         MODULE_BODY: ("C10",),
         "call_kernel": ("C01", "C05", "C06", "C07", "C08", "C09", "C10", "C14", "C16",), "call_Fq": ("C07", "C09", "C11", "C14", "C16",), "get_mesh": ("C01", "C02", "C05", "C06", "C07", "C08", "C09", "C10", "C11", "C14", "C16",), "_pop_par_weights": ("C01", "C02", "C05", "C06", "C07", "C08", "C09", "C10", "C11", "C14", "C16",),
-        "_make_sesans_transform": ("C19",), "DataMixin._interpret_data": ("C03", "C04", "C10", "C11", "C19",), "DataMixin._calc_theory": ("C03", "C07", "C10", "C11", "C19",),
+        "_make_sesans_transform": ("C19",), "DataMixin._interpret_data": ("C03", "C04", "C10", "C11", "C19",), "DataMixin._calc_theory": ("C03", "C05", "C06", "C07", "C10", "C11", "C19",),
         "DirectModel.__init__": ("C10", "C19",), "DirectModel.__call__": ("C01", "C10", "C19",), "_direct_calculate": ("C10", "C19",), "Iq": ("C10",), "Iqxy": ("C10",),
         "Gxi": ("C10", "C19"),
     },
@@ -96,7 +96,7 @@ CURATED = {
         "create_parameters": ("C10",), "Model.__init__": ("C10",), "Experiment.__init__": ("C10",), "Experiment.update": ("C10",),
         "Experiment.theory": ("C10",), "Experiment.parameters": ("C10",),
     },
-    "core": { "merge_deps": ("C16",), "precompile_dlls": ("C17",),"build_model": ("C15", "C17"), "parse_dtype": ("C15",), "reparameterize": ("C16",), "load_model": ("C17",), "load_model_info": ("C17",)},
+    "core": { "merge_deps": ("C16",), "precompile_dlls": ("C17",),"build_model": ("C15", "C17"), "parse_dtype": ("C15", "C17"), "reparameterize": ("C16",), "load_model": ("C17",), "load_model_info": ("C17",)},
     "generate": { "_kernels": ("C01", "C09", "C17",), "_search": ("C17",), "load_kernel_module": ("C17",), "read_text": ("C17",), "get_data_path": ("C17",), "_clean_source_filename": ("C17",),
         MODULE_BODY: ("C15", "C17"),
         "tag_source": ("C17", "C18"), "convert_type": ("C15",), "_convert_type": ("C15",), "_fix_tgmath_int": ("C15",), "_tag_float": ("C15",),
